@@ -380,6 +380,7 @@ tdigest<T, A> tdigest<T, A>::deserialize(std::istream& is, const A& allocator) {
   const auto preamble_longs = read<uint8_t>(is);
   const auto serial_version = read<uint8_t>(is);
   const auto sketch_type = read<uint8_t>(is);
+  if (!is.good()) throw std::runtime_error("error reading from std::istream");
   if (sketch_type != SKETCH_TYPE) {
     if (preamble_longs == 0 && serial_version == 0 && sketch_type == 0) return deserialize_compat(is, allocator);
     throw std::invalid_argument("sketch type mismatch: expected " + std::to_string(SKETCH_TYPE) + ", actual " + std::to_string(sketch_type));
@@ -396,12 +397,14 @@ tdigest<T, A> tdigest<T, A>::deserialize(std::istream& is, const A& allocator) {
     throw std::invalid_argument("preamble longs mismatch: expected " + std::to_string(expected_preamble_longs) + ", actual " + std::to_string(preamble_longs));
   }
   read<uint16_t>(is); // unused
+  if (!is.good()) throw std::runtime_error("error reading from std::istream");
 
   if (is_empty) return tdigest(k, allocator);
 
   const bool reverse_merge = flags_byte & (1 << flags::REVERSE_MERGE);
   if (is_single_value) {
     const T value = read<T>(is);
+    if (!is.good()) throw std::runtime_error("error reading from std::istream");
     return tdigest(reverse_merge, k, value, value, vector_centroid(1, centroid(value, 1), allocator), 1, vector_t(allocator));
   }
 
@@ -410,10 +413,12 @@ tdigest<T, A> tdigest<T, A>::deserialize(std::istream& is, const A& allocator) {
 
   const T min = read<T>(is);
   const T max = read<T>(is);
+  if (!is.good()) throw std::runtime_error("error reading from std::istream");
   vector_centroid centroids(num_centroids, centroid(0, 0), allocator);
   if (num_centroids > 0) read(is, centroids.data(), num_centroids * sizeof(centroid));
   vector_t buffer(num_buffered, 0, allocator);
   if (num_buffered > 0) read(is, buffer.data(), num_buffered * sizeof(T));
+  if (!is.good()) throw std::runtime_error("error reading from std::istream");
   uint64_t weight = 0;
   for (const auto& c: centroids) weight += c.get_weight();
   return tdigest(reverse_merge, k, min, max, std::move(centroids), weight, std::move(buffer));
@@ -483,6 +488,7 @@ tdigest<T, A> tdigest<T, A>::deserialize_compat(std::istream& is, const A& alloc
   // this method was called because the first three bytes were zeros
   // so read one more byte to see if it looks like the reference implementation format
   const auto type = read<uint8_t>(is);
+  if (!is.good()) throw std::runtime_error("error reading from std::istream");
   if (type != COMPAT_DOUBLE && type != COMPAT_FLOAT) {
     throw std::invalid_argument("unexpected sketch preamble: 0 0 0 " + std::to_string(type));
   }
@@ -491,6 +497,7 @@ tdigest<T, A> tdigest<T, A>::deserialize_compat(std::istream& is, const A& alloc
     const auto max = read_big_endian<double>(is);
     const auto k = static_cast<uint16_t>(read_big_endian<double>(is));
     const auto num_centroids = read_big_endian<uint32_t>(is);
+    if (!is.good()) throw std::runtime_error("error reading from std::istream");
     vector_centroid centroids(num_centroids, centroid(0, 0), allocator);
     uint64_t total_weight = 0;
     for (auto& c: centroids) {
@@ -499,6 +506,7 @@ tdigest<T, A> tdigest<T, A>::deserialize_compat(std::istream& is, const A& alloc
       c = centroid(mean, weight);
       total_weight += weight;
     }
+    if (!is.good()) throw std::runtime_error("error reading from std::istream");
     return tdigest(false, k, min, max, std::move(centroids), total_weight, vector_t(allocator));
   }
   // COMPAT_FLOAT: compatibility with asSmallBytes()
@@ -509,6 +517,7 @@ tdigest<T, A> tdigest<T, A>::deserialize_compat(std::istream& is, const A& alloc
   // they can be derived from k in the constructor
   read<uint32_t>(is); // unused
   const auto num_centroids = read_big_endian<uint16_t>(is);
+  if (!is.good()) throw std::runtime_error("error reading from std::istream");
   vector_centroid centroids(num_centroids, centroid(0, 0), allocator);
   uint64_t total_weight = 0;
   for (auto& c: centroids) {
@@ -517,6 +526,7 @@ tdigest<T, A> tdigest<T, A>::deserialize_compat(std::istream& is, const A& alloc
     c = centroid(mean, weight);
     total_weight += weight;
   }
+  if (!is.good()) throw std::runtime_error("error reading from std::istream");
   return tdigest(false, k, min, max, std::move(centroids), total_weight, vector_t(allocator));
 }
 
